@@ -19,7 +19,7 @@ CHECK_DEADLOCK FALSE
 
 def sig_of(cfg, clause):
     s = {k: v for k, v in cfg.items() if isinstance(v, (int, str, bool)) and k not in ("seed", "draws")}
-    for k in ("keys", "nets", "box"):
+    for k in ("keys", "nets", "box", "boxy"):
         if k in cfg:
             s[k] = json.dumps(cfg[k])
     if "n" in cfg and "b" in cfg:
